@@ -51,6 +51,8 @@ Record st := mkst {
   cfg_n0 : nat;           (* _initialInterpolationPointCount *)
   hasT : bool;            (* hasInterpolation() *)
   tab : list Q;           (* _interpolationPoints == knots of _interpolatedFunction *)
+  vals : list Q;          (* _interpolationValues, by provenance: entry i is the abscissa at which
+                             the stored value i was computed (the function is external) *)
   rmin : Q; rmax : Q;     (* _rangeMin, _rangeMax *)
   extrap : bool;          (* _interpolatedFunction.extrapolate *)
   mlo : mode; mhi : mode; (* extrapolationTypeLower / Upper *)
@@ -59,17 +61,17 @@ Record st := mkst {
   pend : list Q           (* _directlyEvaluatedAt *)
 }.
 
-Definition set_table (s : st) (t : list Q) (lo hi : Q) (e : bool) : st :=
-  mkst (cfg_k s) (cfg_thr s) (cfg_n0 s) true t lo hi e (mlo s) (mhi s) (adaptive s) (cnt s) (pend s).
+Definition set_table (s : st) (t v : list Q) (lo hi : Q) (e : bool) : st :=
+  mkst (cfg_k s) (cfg_thr s) (cfg_n0 s) true t v lo hi e (mlo s) (mhi s) (adaptive s) (cnt s) (pend s).
 Definition set_modes (s : st) (a b : mode) : st :=
-  mkst (cfg_k s) (cfg_thr s) (cfg_n0 s) (hasT s) (tab s) (rmin s) (rmax s) (extrap s) a b
+  mkst (cfg_k s) (cfg_thr s) (cfg_n0 s) (hasT s) (tab s) (vals s) (rmin s) (rmax s) (extrap s) a b
        (adaptive s) (cnt s) (pend s).
 Definition set_adapt (s : st) (a : bool) (c : nat) (p : list Q) : st :=
-  mkst (cfg_k s) (cfg_thr s) (cfg_n0 s) (hasT s) (tab s) (rmin s) (rmax s) (extrap s) (mlo s) (mhi s)
+  mkst (cfg_k s) (cfg_thr s) (cfg_n0 s) (hasT s) (tab s) (vals s) (rmin s) (rmax s) (extrap s) (mlo s) (mhi s)
        a c p.
 
 Definition init (k thr n0 : nat) (adapt : bool) : st :=
-  mkst k thr n0 false [] 0 0 false NONE NONE adapt 0 [].
+  mkst k thr n0 false [] [] 0 0 false NONE NONE adapt 0 [].
 
 (* ------------------------------------------------------------------------------------ *)
 (** * numpy idioms on exact rationals *)
@@ -156,23 +158,38 @@ Definition oshape (k : nat) (shape : list nat) : list nat :=
 Section Model.
 Variable fin : Q -> bool.          (* is the function's row at q finite? *)
 
-(** _dropBadPoints + CubicSpline(...) + range bookkeeping  (_interpolate) *)
-Definition interpolate (s : st) (xs : list Q) : st * res unit :=
-  let xf := filter fin xs in
+(** _dropBadPoints + CubicSpline(...) + range bookkeeping  (_interpolate(x, fx)).
+    [ys] : the abscissae at which the rows of fx were computed; a row is kept iff it is finite,
+    and the abscissa kept with it is the one at the SAME index *)
+Definition interpolate2 (s : st) (xs ys : list Q) : st * res unit :=
+  let keep := map fin ys in
+  let xf := select keep xs in
+  let yf := select keep ys in
   if (2 <=? length xf)%nat && incrb xf then
-    (set_table s xf (qmin xf) (qmax xf) (is_fun (mlo s) || is_fun (mhi s)), Ok tt)
+    (set_table s xf yf (qmin xf) (qmax xf) (is_fun (mlo s) || is_fun (mhi s)), Ok tt)
   else (s, Err EValue).
+
+(** the function evaluated on the abscissae themselves *)
+Definition interpolate (s : st) (xs : list Q) : st * res unit := interpolate2 s xs xs.
+
+(** int(width / (1e-8 * tableWidth)), 0 when not positive *)
+Definition fit (width tableWidth : Q) : nat :=
+  Z.to_nat (Qfloor (width / ((1 # 100000000) * tableWidth))).
 
 Definition newTable (s : st) (a b : Q) (n : nat) : st * res unit :=
   interpolate s (linspace a b n).
 
 Definition extend (s : st) (newMin newMax : Q) (pLo pHi : nat) : st * res unit :=
   if negb (hasT s) then newTable s newMin newMax (pLo + pHi) else
+  (* at most as many points as fit at 1e-8 of the table width (an extension by a few ulp
+     appends nothing) *)
+  let pLo := Nat.min pLo (fit (rmin s - newMin) (rmax s - rmin s)) in
+  let pHi := Nat.min pHi (fit (newMax - rmax s) (rmax s - rmin s)) in
   let lo := if Qlt_bool newMin (rmin s) && (0 <? pLo)%nat
             then linspace_open newMin (rmin s) pLo else [] in
   let hi := if Qlt_bool (rmax s) newMax && (0 <? pHi)%nat
             then tl (linspace (rmax s) newMax (S pHi)) else [] in
-  match interpolate s (lo ++ tab s ++ hi) with
+  match interpolate2 s (lo ++ tab s ++ hi) (lo ++ vals s ++ hi) with
   | (s', Ok _) => ((if adaptive s' then set_adapt s' true 0 [] else s'), Ok tt)
   | r => r
   end.
@@ -295,11 +312,11 @@ Definition derivative (s : st) (order : nat) (useInterp : bool) (shape : list na
 
 Definition setModes (s : st) (a b : mode) : st * res unit :=
   let s1 := set_modes s a b in
-  if hasT s1 then interpolate s1 (tab s1) else (s1, Ok tt).
+  if hasT s1 then interpolate2 s1 (tab s1) (vals s1) else (s1, Ok tt).
 
 (** writeInterpolationTable + readInterpolationTable of the same file *)
 Definition writeRead (s : st) : st * res unit :=
-  if hasT s then interpolate s (tab s) else (s, Err EIndex).
+  if hasT s then interpolate2 s (tab s) (vals s) else (s, Err EIndex).
 
 Inductive op :=
   | NewTable (a b : Q) (n : nat)
@@ -310,7 +327,10 @@ Inductive op :=
   | SetModes (lo hi : mode)
   | EnableAdaptive | DisableAdaptive
   | Schedule (pts : list Q)
-  | WriteRead.
+  | WriteRead
+  | FromValues (xs : list Q)   (* newInterpolationTableFromValues(xs, f(xs)), xs in ANY order *)
+  | ReadFile (xs : list Q)     (* readInterpolationTable of a file with rows (x, f(x)), x in xs *)
+  | ReadMissing.               (* readInterpolationTable of a file that does not exist *)
 
 Inductive out :=
   | OUnit (r : res unit)
@@ -328,6 +348,9 @@ Definition step (s : st) (o : op) : st * out :=
   | DisableAdaptive => (set_adapt s false (cnt s) (pend s), OUnit (Ok tt))
   | Schedule pts => let (s', r) := schedule s pts in (s', OUnit r)
   | WriteRead => let (s', r) := writeRead s in (s', OUnit r)
+  | FromValues xs => let (s', r) := interpolate s xs in (s', OUnit r)
+  | ReadFile xs => let (s', r) := interpolate s xs in (s', OUnit r)
+  | ReadMissing => (s, OUnit (Ok tt))          (* IOError is logged, nothing changes *)
   end.
 
 Fixpoint run (s : st) (ops : list op) : st :=
@@ -391,7 +414,7 @@ Definition out_eqb (a b : out) : bool :=
     (the attributes do not exist). *)
 Definition st_eqb (a b : st) : bool :=
   Bool.eqb (hasT a) (hasT b) &&
-  (if hasT a then Qlist_close (tab a) (tab b) && Qeq_bool (rmin a) (rmin b) &&
+  (if hasT a then Qlist_close (tab a) (tab b) && Qlist_close (vals a) (vals b) && Qeq_bool (rmin a) (rmin b) &&
                   Qeq_bool (rmax a) (rmax b) && Bool.eqb (extrap a) (extrap b) else true) &&
   mode_eqb (mlo a) (mlo b) && mode_eqb (mhi a) (mhi b) && Bool.eqb (adaptive a) (adaptive b) &&
   (cnt a =? cnt b)%nat && Qlist_eqb (pend a) (pend b).
